@@ -371,6 +371,8 @@ class ServerSystem:
             return
         ENGINE_TRACES.append((self.prog, engine_view(self.trace)))
         rec = TRACES.get(key)
+        if rec is None and restart:
+            return          # the stopped process's part was not recorded as a trace (several runs in one server): nothing to continue
         if rec is None or not restart:
             if rec is not None:              # the same path reused for a new history
                 _anon[0] += 1
@@ -877,11 +879,11 @@ def double_crash_cases(prog, workdir, k1s, k2s, order="fifo", seed=0, horizon_ms
     return cases
 
 
-def two_handler_restart_cases(prog, workdir, finished_first=True, horizon_ms=60000, idle_timeout=1000.0):
+def two_handler_restart_cases(prog, workdir, finished_first=True, horizon_ms=60000, idle_timeout=1000.0, corrupt_other=False):
     """Two runs in one server: the process stops right after the tick that ends ONE of them was persisted (its status
     write never happened) while the OTHER is in the middle of its run.  The restarted server must finalise the first
     and resume the second.  Returns one case record per handler (same shape as crash_cases)."""
-    tag = "ff" if finished_first else "uf"
+    tag = ("ff" if finished_first else "uf") + ("_c" if corrupt_other else "")
     fin, unf = ("h1", "h2") if finished_first else ("h2", "h1")
     uids = {"h1": "s0", "h2": "t0"}
 
@@ -922,6 +924,16 @@ def two_handler_restart_cases(prog, workdir, finished_first=True, horizon_ms=600
         s.close()
     if not crashed:
         return []
+    if corrupt_other:
+        # the OTHER run's tick log cannot be replayed any more (ticks written by code that has since changed): the restart
+        # must still deal with the run next to it
+        import sqlite3 as _sq
+        c_ = _sq.connect(db)
+        try:
+            c_.execute("UPDATE ticks SET tick_data = ? WHERE run_id = ?", ('{"type": "TickOfAnEarlierRelease", "x": 1}', hs[unf]))
+            c_.commit()
+        finally:
+            c_.close()
     s2 = ServerSystem(prog, db_path=db, idle_timeout=idle_timeout, run_no_base=1)
     try:
         s2.handlers = hs
@@ -938,7 +950,7 @@ def two_handler_restart_cases(prog, workdir, finished_first=True, horizon_ms=600
         s2.close()
     ends = last["k"] == "result" and any(x["r"] == "ret" and x["ty"] == "Stop" for x in last.get("res", []))
     out = []
-    for h in ("h1", "h2"):
+    for h in ((fin,) if corrupt_other else ("h1", "h2")):
         res[h]["idle_marked_at_restart"] = False
         out.append({"e": "case", "k": n_fin, "ref": ref[h], "res": res[h], "reran": uids[h] in started,
                     "last_tick": last["k"] if h == fin else "other_run", "prefix_ends_run": bool(ends) if h == fin else False,
